@@ -118,6 +118,8 @@ struct Chain {
     blocks: Vec<GBlock>,
     first_height: u32,
     kind_b: bool,
+    /// per pool: spends (in a later block of the chain) of a note received earlier in the chain
+    intra: [usize; 3],
 }
 
 struct Gen<'a> {
@@ -349,7 +351,7 @@ impl<'a> Gen<'a> {
             nu6_2: one,
             nu6_3: nu63_act,
         };
-        let nblocks = if kind_b { 1 } else if big { self.r.range(2, 4) as usize } else { *self.r.pick(&[1usize, 1, 1, 2, 2, 3, 4]) };
+        let mut nblocks = if kind_b { 1 } else if big { self.r.range(2, 4) as usize } else { *self.r.pick(&[1usize, 1, 2, 2, 3, 3, 4, 5]) };
 
         // initial tracked nullifiers (arbitrary values, some duplicates across accounts, account 0 allowed)
         let ids: Vec<u32> = tracked.iter().map(|&i| self.accts[i].id).collect();
@@ -417,6 +419,10 @@ impl<'a> Gen<'a> {
             }
             if !ok && self.r.chance(4, 5) {
                 first_meta = true;
+            } else if !ok {
+                // the first block is rejected (TreeSizeUnknown): nothing may follow it, so that the
+                // inline and the batched path see the same single defect
+                nblocks = 1;
             }
         }
         let prior = if mode == 2 {
@@ -429,6 +435,9 @@ impl<'a> Gen<'a> {
         let mut cur_s: Vec<[u8; 32]> = nf_s.iter().map(|x| x.1 .0).collect();
         let mut cur_o: Vec<[u8; 32]> = nf_o.iter().map(|x| x.1.to_bytes()).collect();
         let mut cur_i: Vec<[u8; 32]> = nf_i.iter().map(|x| x.1.to_bytes()).collect();
+        // nullifiers of notes received by tracked accounts in earlier blocks of this chain
+        let mut got: [Vec<[u8; 32]>; 3] = [vec![], vec![], vec![]];
+        let mut intra = [0usize; 3];
 
         let mut blocks = vec![];
         let mut prev = prior_hash;
@@ -458,7 +467,9 @@ impl<'a> Gen<'a> {
                 let bigtx = big && self.r.chance(1, 3);
                 // Sapling spends and outputs
                 for _ in 0..self.count(false) {
-                    let nf = if !cur_s.is_empty() && self.r.chance(1, 2) { *self.r.pick(&cur_s) } else { self.rand32() };
+                    let live: Vec<[u8; 32]> = got[0].iter().filter(|x| cur_s.contains(x)).cloned().collect();
+                    let nf = if !live.is_empty() && self.r.chance(1, 3) { *self.r.pick(&live) } else if !cur_s.is_empty() && self.r.chance(1, 2) { *self.r.pick(&cur_s) } else { self.rand32() };
+                    if got[0].contains(&nf) { intra[0] += 1; }
                     tx.spends.push(CompactSaplingSpend { nf: nf.to_vec() });
                 }
                 for _ in 0..self.count(bigtx) {
@@ -485,7 +496,9 @@ impl<'a> Gen<'a> {
                 // Orchard actions
                 let big_o = bigtx && self.r.bool();
                 for _ in 0..self.count(big_o) {
-                    let nf_old = if !cur_o.is_empty() && self.r.chance(1, 2) { *self.r.pick(&cur_o) } else { self.rand_base() };
+                    let live: Vec<[u8; 32]> = got[1].iter().filter(|x| cur_o.contains(x)).cloned().collect();
+                    let nf_old = if !live.is_empty() && self.r.chance(1, 3) { *self.r.pick(&live) } else if !cur_o.is_empty() && self.r.chance(1, 2) { *self.r.pick(&cur_o) } else { self.rand_base() };
+                    if got[1].contains(&nf_old) { intra[1] += 1; }
                     let who = self.pick_who(&tracked);
                     // a v3 note in `actions` never decrypts under the Orchard domain
                     let wrong_domain = who.is_some() && self.r.chance(1, 15);
@@ -512,7 +525,9 @@ impl<'a> Gen<'a> {
                 }
                 // Ironwood actions
                 for _ in 0..self.count(false) {
-                    let nf_old = if !cur_i.is_empty() && self.r.chance(1, 2) { *self.r.pick(&cur_i) } else { self.rand_base() };
+                    let live: Vec<[u8; 32]> = got[2].iter().filter(|x| cur_i.contains(x)).cloned().collect();
+                    let nf_old = if !live.is_empty() && self.r.chance(1, 3) { *self.r.pick(&live) } else if !cur_i.is_empty() && self.r.chance(1, 2) { *self.r.pick(&cur_i) } else { self.rand_base() };
+                    if got[2].contains(&nf_old) { intra[2] += 1; }
                     let who = self.pick_who(&tracked);
                     let wrong_domain = who.is_some() && self.r.chance(1, 15);
                     let (mut act, t) = self.orchard_act(nf_old, who, !wrong_domain);
@@ -541,9 +556,9 @@ impl<'a> Gen<'a> {
                 for a in &tx.actions { cur_o.retain(|x| x[..] != a.nullifier[..]); }
                 for a in &tx.ironwood_actions { cur_i.retain(|x| x[..] != a.nullifier[..]); }
                 let is_tracked = |t: &Truth| ids.contains(&t.acct);
-                for t in tt.s.iter().flatten() { if is_tracked(t) { cur_s.push(t.nf.clone().try_into().unwrap()); } }
-                for t in tt.o.iter().flatten() { if is_tracked(t) { cur_o.push(t.nf.clone().try_into().unwrap()); } }
-                for t in tt.i.iter().flatten() { if is_tracked(t) { cur_i.push(t.nf.clone().try_into().unwrap()); } }
+                for t in tt.s.iter().flatten() { if is_tracked(t) { cur_s.push(t.nf.clone().try_into().unwrap()); got[0].push(t.nf.clone().try_into().unwrap()); } }
+                for t in tt.o.iter().flatten() { if is_tracked(t) { cur_o.push(t.nf.clone().try_into().unwrap()); got[1].push(t.nf.clone().try_into().unwrap()); } }
+                for t in tt.i.iter().flatten() { if is_tracked(t) { cur_i.push(t.nf.clone().try_into().unwrap()); got[2].push(t.nf.clone().try_into().unwrap()); } }
             }
             let with_meta = if bi == 0 { first_meta } else { self.r.chance(7, 10) };
             if with_meta {
@@ -570,11 +585,33 @@ impl<'a> Gen<'a> {
             blocks.push(GBlock { cb, truth, hdr, parent, corruption: vec![] });
         }
 
-        let mut ch = Chain { params, tracked, prior, nf_s, nf_o, nf_i, blocks, first_height: h0, kind_b };
+        let mut ch = Chain { params, tracked, prior, nf_s, nf_o, nf_i, blocks, first_height: h0, kind_b, intra };
         // corruption stream (last block only)
         let ncorr = if self.force.is_some() { 1 } else if kind_b { self.r.range(2, 3) } else if self.r.chance(35, 100) { 1 } else { 0 };
         for _ in 0..ncorr {
             self.corrupt(&mut ch);
+        }
+        // Sapling note plaintexts are version-checked against the ZIP 212 rule of the height the
+        // block CLAIMS: a height corruption that crosses the Canopy rule makes the notes of this
+        // block undecryptable (lead byte 0x01 only before Canopy, 0x02 only after the grace period)
+        {
+            let last = ch.blocks.len() - 1;
+            let true_h = ch.first_height.saturating_add(last as u32);
+            let claimed = ch.blocks[last].cb.height;
+            if claimed != true_h as u64 && claimed <= u32::MAX as u64 {
+                use sapling::note_encryption::Zip212Enforcement as Z;
+                let e_old = zip212_enforcement(&ch.params, BlockHeight::from(true_h));
+                let e_new = zip212_enforcement(&ch.params, BlockHeight::from(claimed as u32));
+                let after = !matches!(e_old, Z::Off);
+                let ok = if after { !matches!(e_new, Z::Off) } else { !matches!(e_new, Z::On) };
+                if !ok {
+                    for tt in ch.blocks[last].truth.iter_mut() {
+                        for t in tt.s.iter_mut() {
+                            *t = None;
+                        }
+                    }
+                }
+            }
         }
         // Sapling nullifiers depend on the note position: recompute the ground truth of the last
         // block for the tree size it now starts from (prior size, else metadata - outputs, else 0)
@@ -619,8 +656,8 @@ impl<'a> Gen<'a> {
         let nt = g.cb.vtx.len();
         let which = self.force.unwrap_or_else(|| { let w = self.r.below(27); if w == 24 { 27 } else { w } });
         let tag: &'static str = match which {
-            0 => { g.cb.height = match self.r.below(4) { 0 => g.cb.height + 1, 1 => g.cb.height.saturating_sub(1), 2 => g.cb.height + 2, _ => 0 }; "height" }
-            1 => { g.cb.height = *self.r.pick(&[1u64 << 32, (1u64 << 32) + g.cb.height, u64::MAX, (1u64 << 32) - 1]); "height-big" }
+            0 => { g.cb.height = match self.r.below(4) { 0 => g.cb.height.wrapping_add(1), 1 => g.cb.height.saturating_sub(1), 2 => g.cb.height.wrapping_add(2), _ => 0 }; "height" }
+            1 => { g.cb.height = *self.r.pick(&[1u64 << 32, (1u64 << 32).wrapping_add(g.cb.height), u64::MAX, (1u64 << 32) - 1]); "height-big" }
             2 => { g.cb.prev_hash = rb.to_vec(); "prev-hash" }
             3 => { let k = self.r.below(32) as usize; if g.cb.prev_hash.len() == 32 { g.cb.prev_hash[k] ^= 1 << self.r.below(8); } "prev-hash-bit" }
             4 => { self.bad_len(&mut g.cb.prev_hash, 32); "prev-hash-len" }
@@ -779,7 +816,7 @@ fn scope_s(s: Option<Scope>) -> String {
     }
 }
 
-fn raw_ok(sb: &ScannedBlock<u32>) -> String {
+fn raw_txs(sb: &ScannedBlock<u32>) -> String {
     let spends = |v: Vec<(usize, Vec<u8>, u32)>| list(v.into_iter().map(|(i, nf, a)| format!("({}, {}, {})", i, tok(&nf), a)));
     let txs = list(sb.transactions().iter().map(|tx| {
         let ss = spends(tx.sapling_spends().iter().map(|s| (s.index(), s.nf().0.to_vec(), *s.account_id())).collect());
@@ -801,6 +838,11 @@ fn raw_ok(sb: &ScannedBlock<u32>) -> String {
         format!("(Wtx {} {} {} {} {} {} {} {})", tok(tx.txid().as_ref()), u16::from(tx.block_index()), ss, so, os,
             oo(tx.orchard_outputs(), orchard::ValuePool::Orchard), is, oo(tx.ironwood_outputs(), orchard::ValuePool::Ironwood))
     }));
+    txs
+}
+
+fn raw_ok(sb: &ScannedBlock<u32>) -> String {
+    let txs = raw_txs(sb);
     let bun = |fin: u32, comm: Vec<(Vec<u8>, String)>, nfm: Vec<(u16, Vec<u8>, Vec<Vec<u8>>)>| {
         format!("(Bn {} {} {})", fin, list(comm.into_iter().map(|(c, r)| format!("({}, {})", tok(&c), r))),
             list(nfm.into_iter().map(|(i, t, nfs)| format!("({}, {}, {})", i, tok(&t), list(nfs.iter().map(|n| tok(n)))))))
@@ -844,6 +886,14 @@ fn truth_s(t: &Option<Truth>) -> String {
         None => "None".into(),
         Some(t) => format!("(Some (T {} {} {} {} {}))", t.acct, t.scope, t.value, t.nfpos, tok(&t.nf)),
     }
+}
+
+fn raw_nfs(nfs: &Nullifiers<u32>) -> String {
+    let nf = |v: Vec<(u32, Vec<u8>)>| list(v.into_iter().map(|(a, n)| format!("({}, {})", a, tok(&n))));
+    format!("(Nfs {} {} {})",
+        nf(nfs.sapling().iter().map(|(a, n)| (*a, n.0.to_vec())).collect()),
+        nf(nfs.orchard().iter().map(|(a, n)| (*a, n.to_bytes().to_vec())).collect()),
+        nf(nfs.ironwood().iter().map(|(a, n)| (*a, n.to_bytes().to_vec())).collect()))
 }
 
 fn raw_inputs(ch: &Chain, accts: &[Acct], g: &GBlock, prior: &Option<BlockMetadata>, nfs: &Nullifiers<u32>) -> String {
@@ -926,26 +976,30 @@ fn spy_for(ch: &Chain, accts: &[Acct]) -> Spy {
 }
 
 /// Inline scan of the chain: (raw inputs, raw outcome) per block; stops at the first rejection.
-fn run_inline(ch: &Chain, accts: &[Acct]) -> Vec<(String, String)> {
+fn run_inline(ch: &Chain, accts: &[Acct]) -> (Vec<(String, String)>, Vec<String>) {
     let spy = spy_for(ch, accts);
     let keys = ScanningKeys::from_account_ufvks(spy.ufvks.clone());
     let mut nfs = Nullifiers::unspent(&spy).unwrap();
     let mut prior = ch.prior;
     let mut out = vec![];
+    let mut upd = vec![];
     for g in &ch.blocks {
         let inp = raw_inputs(ch, accts, g, &prior, &nfs);
-        let r = catch(|| scan_block(&ch.params, g.cb.clone(), &keys, &nfs, prior.as_ref()));
+        let r = scan_catch(|| scan_block(&ch.params, g.cb.clone(), &keys, &nfs, prior.as_ref()));
         let o = raw_outcome(&r);
         out.push((inp, o));
         match r {
             Some(Ok(sb)) => {
+                // Nullifiers::update_with between consecutive blocks of the chain: its own case
+                let before = raw_nfs(&nfs);
                 nfs.update_with(&sb);
+                upd.push(format!("Upd {} {} {}", before, raw_txs(&sb), raw_nfs(&nfs)));
                 prior = Some(sb.to_block_metadata());
             }
             _ => break,
         }
     }
-    out
+    (out, upd)
 }
 
 /// Batched scan of the whole chain through `scan_cached_blocks`.
@@ -961,7 +1015,7 @@ fn run_cached(ch: &Chain, accts: &[Acct]) -> (Cached, bool) {
     let from = BlockHeight::from(ch.first_height);
     let state = ChainState::empty(from - 1, BlockHash([0; 32]));
     let n = ch.blocks.len();
-    let r = catch(|| scan_cached_blocks(&ch.params, &src, &mut spy, from, &state, n));
+    let r = scan_catch(|| scan_cached_blocks(&ch.params, &src, &mut spy, from, &state, n));
     match r {
         None => (Cached::Panic, spy.put_calls != 0),
         Some(Ok(_)) => {
@@ -971,6 +1025,23 @@ fn run_cached(ch: &Chain, accts: &[Acct]) -> (Cached, bool) {
         Some(Err(ChainError::Scan(e))) => (Cached::Err(raw_err(&e)), spy.put_calls != 0),
         Some(Err(_)) => (Cached::Err("(Err OtherError)".into()), spy.put_calls != 0),
     }
+}
+
+/// Panics of the code under test are outcomes (silent); a panic anywhere else in the harness is a
+/// harness defect and is reported on stderr (which the driver keeps in its log).
+static IN_SCAN: std::sync::atomic::AtomicUsize = std::sync::atomic::AtomicUsize::new(0);
+fn scan_catch<T>(f: impl FnOnce() -> T) -> Option<T> {
+    IN_SCAN.fetch_add(1, std::sync::atomic::Ordering::SeqCst);
+    let r = catch(f);
+    IN_SCAN.fetch_sub(1, std::sync::atomic::Ordering::SeqCst);
+    r
+}
+fn install_hook() {
+    std::panic::set_hook(Box::new(|info| {
+        if IN_SCAN.load(std::sync::atomic::Ordering::SeqCst) == 0 {
+            eprintln!("c05 harness panic (outside the code under test): {}", info);
+        }
+    }));
 }
 
 fn class_of(o: &str) -> u8 {
@@ -985,13 +1056,13 @@ fn plan(a: &Args) -> (usize, usize, usize) {
         let n: usize = a.rest[i + 1].parse().unwrap();
         return (n, 1, n / 3);
     }
-    if a.search { (700, 4, 300) } else if a.thorough() { (5000, 25, 2000) } else { (320, 3, 130) }
+    if a.search { (700, 4, 300) } else if a.thorough() { (2000, 10, 800) } else { (260, 3, 120) }
 }
 
 fn main() {
     let a = args();
     if !a.rest.iter().any(|x| x == "--loud") {
-        quiet_panics();
+        install_hook();
     }
     let argn = |name: &str| a.rest.iter().position(|x| x == name).map(|i| a.rest[i + 1].parse::<usize>().unwrap());
     let (n_ord, n_big, n_bad) = plan(&a);
@@ -1037,10 +1108,14 @@ fn main() {
             let cs = if partial { format!("{}!partial", cs) } else { cs };
             writeln!(w, "R {} {}", ci, cs).unwrap();
             if threads == 16 {
-                for (j, (inp, o)) in run_inline(&ch, &accts).into_iter().enumerate() {
+                let (inl, upd) = run_inline(&ch, &accts);
+                for (j, (inp, o)) in inl.into_iter().enumerate() {
                     writeln!(w, "I {} {}\t{}\t{}", ci, j, inp, o).unwrap();
                 }
-                writeln!(w, "K {} {} {}", ci, if kind_b { 1 } else { 0 }, ch.blocks.last().unwrap().corruption.join(",")).unwrap();
+                for u in upd {
+                    writeln!(w, "U {} {}", ci, u).unwrap();
+                }
+                writeln!(w, "K {} {} {} {} {} {}", ci, if kind_b { 1 } else { 0 }, ch.intra[0], ch.intra[1], ch.intra[2], ch.blocks.last().unwrap().corruption.join(",")).unwrap();
             }
             ci += SHARDS;
         }
@@ -1059,7 +1134,7 @@ fn main() {
             if let Some(n) = argn("--small") {
                 c.args(["--small", &n.to_string()]);
             }
-            c.stdout(Stdio::piped()).stderr(Stdio::null());
+            c.stdout(Stdio::piped()).stderr(Stdio::inherit());
             let mut child = c.spawn().expect("spawn worker");
             let out = child.stdout.take().unwrap();
             readers.push(std::thread::spawn(move || {
@@ -1074,8 +1149,10 @@ fn main() {
         kind_b: bool,
         cached: Vec<(usize, String)>,
         corruption: Vec<String>,
+        upd: Vec<String>,
+        intra: [usize; 3],
     }
-    let mut all: Vec<Res> = (0..total).map(|_| Res { inl: vec![], kind_b: false, cached: vec![], corruption: vec![] }).collect();
+    let mut all: Vec<Res> = (0..total).map(|_| Res { inl: vec![], kind_b: false, cached: vec![], corruption: vec![], upd: vec![], intra: [0; 3] }).collect();
     for r in readers {
         let (t, ok, lines) = r.join().unwrap();
         assert!(ok, "worker with {} threads failed", t);
@@ -1092,8 +1169,12 @@ fn main() {
                     let o = it.next().unwrap().to_string();
                     all[ci].inl.push((inp, o));
                 }
+                "U " => all[ci].upd.push(rest.to_string()),
                 "K " => {
-                    let (kb, corr) = rest.split_once(' ').unwrap_or((rest, ""));
+                    let mut it = rest.splitn(5, ' ');
+                    let kb = it.next().unwrap();
+                    for k in 0..3 { all[ci].intra[k] = it.next().unwrap().parse().unwrap(); }
+                    let corr = it.next().unwrap_or("");
                     all[ci].kind_b = kb == "1";
                     all[ci].corruption = corr.split(',').filter(|x| !x.is_empty()).map(|x| x.to_string()).collect();
                 }
@@ -1111,6 +1192,8 @@ fn main() {
     let mut alt_total = 0usize;
     let mut err_differs = 0usize;
     let mut st_partial = 0usize;
+    let mut n_upd = 0usize;
+    let mut intra = [0usize; 3];
     for res in &all {
         assert_eq!(res.cached.len(), 4, "missing worker result");
         assert!(!res.inl.is_empty());
@@ -1170,6 +1253,11 @@ fn main() {
             let cls = if o.starts_with("(Ok") { "ok".to_string() } else if o == "Panic" { "panic".into() } else { o[6..].split(' ').next().unwrap().trim_end_matches(')').to_string() };
             *hist.entry(cls).or_default() += 1;
         }
+        for u in &res.upd {
+            case(intern(u));
+            n_upd += 1;
+        }
+        for k in 0..3 { intra[k] += res.intra[k]; }
         for c in &res.corruption {
             *corr_hist.entry(c.clone()).or_default() += 1;
         }
@@ -1179,8 +1267,8 @@ fn main() {
     let mut cv: Vec<_> = corr_hist.into_iter().collect();
     cv.sort();
     stat(format!(
-        "{{\"chains\":{},\"corpus_chains\":11,\"ordinary\":{},\"big\":{},\"malformed_multi\":{},\"cases\":{},\"outputs_total\":{},\"outputs_per_block_hist_0_3_9_29_99_more\":{:?},\"variants\":\"inline; batched(threshold 100) x rayon threads 16,1,2,7\",\"batched_disagreements\":{},\"batched_error_identity_differs\":{},\"partial_applications\":{},\"outcomes\":{{{}}},\"corruptions\":{{{}}}}}",
-        total, n_ord, n_big, n_bad, n_cases, n_out, size_hist, alt_total, err_differs, st_partial,
+        "{{\"chains\":{},\"corpus_chains\":11,\"ordinary\":{},\"big\":{},\"malformed_multi\":{},\"cases\":{},\"update_with_cases\":{},\"spends_of_notes_received_earlier_in_the_same_chain_sapling_orchard_ironwood\":{:?},\"outputs_total\":{},\"outputs_per_block_hist_0_3_9_29_99_more\":{:?},\"variants\":\"inline; batched(threshold 100) x rayon threads 16,1,2,7\",\"batched_disagreements\":{},\"batched_error_identity_differs\":{},\"partial_applications\":{},\"outcomes\":{{{}}},\"corruptions\":{{{}}}}}",
+        total, n_ord, n_big, n_bad, n_cases, n_upd, intra, n_out, size_hist, alt_total, err_differs, st_partial,
         hv.iter().map(|(k, v)| format!("\"{}\":{}", k, v)).collect::<Vec<_>>().join(","),
         cv.iter().map(|(k, v)| format!("\"{}\":{}", k, v)).collect::<Vec<_>>().join(",")
     ));
